@@ -21,7 +21,7 @@ BANANA = "spread/banana.py"
 TECHNIQUE = "table agreement and CFG order structural; boundary and step evaluation bounded"
 EXPLANATION = (
     'STRUCTURAL: type bytes are distinct and >= 0x80; every type byte the encoder (with its private helpers) mentions is me'
-    'ntioned by dataReceived, a helper it calls or a table it consults; the vocabulary tables are inverse; connectionMade i'
+    'ntioned by dataReceived, a helper it calls, a function held in a class-level dispatch table it consults, or the keys / members of a table it consults; the vocabulary tables are inverse; connectionMade i'
     'nstalls the limits on every path; every sender hands _encode a sink that is not the transport and writes the transport'
     ' only after _encode returned (must-precede); no module-level helper that receives the float itself on the way to its wire bytes is memoised (lru_cache / cache) and no table is keyed by it. BOUNDED only - integers, lengths and streams are infinite domains and the'
     ' decisions are arithmetic on values, so no complete finite domain exists: int2b128/b1282int on boundary magnitudes; se'
@@ -378,7 +378,8 @@ def check(ctx):
                 for tn in consulted_tables(fn):       # keys of a dispatch dict / members of a class-level collection of type bytes
                     tv = cls_tables[tn]
                     for part in (tv.keys if isinstance(tv, ast.Dict) else tv.elts):
-                        out |= {x.id for x in ast.walk(part) if part is not None and isinstance(x, ast.Name) and x.id in tags}
+                        if part is not None:
+                            out |= {x.id for x in ast.walk(part) if isinstance(x, ast.Name) and x.id in tags}
             return out
         enc_tags, dec_tags = tag_names(closure("_encode")), tag_names(closure("dataReceived"))
         if len(enc_tags) < 6:
@@ -720,8 +721,11 @@ MUTANTS = [
     Mutant('float-body-packed-by-a-cached-helper', BANANA, '            write(FLOAT)\n            write(struct.pack("!d", obj))\n', '            write(FLOAT)\n            write(_packDouble(obj))\n', more=[(BANANA, 'def setPrefixLimit(limit):\n', 'import functools\n\n\n@functools.cache\ndef _packDouble(number):\n    return struct.pack("!d", number)\n\n\ndef setPrefixLimit(limit):\n')], expect_rule='encode-cfg/float-path-not-memoised'),
     Mutant('float-bodies-remembered-in-a-module-table', BANANA, '            write(FLOAT)\n            write(struct.pack("!d", obj))\n', '            write(FLOAT)\n            write(_floatBodies.setdefault(obj, struct.pack("!d", obj)))\n', more=[(BANANA, 'def setPrefixLimit(limit):\n', '_floatBodies = {}\n\n\ndef setPrefixLimit(limit):\n')], expect_rule='encode-cfg/float-path-not-memoised'),
     Mutant('cached-helper-reached-through-a-plain-one', BANANA, '            write(FLOAT)\n            write(struct.pack("!d", obj))\n', '            _writeFloat(obj, write)\n', more=[(BANANA, 'def setPrefixLimit(limit):\n', 'from functools import lru_cache\n\n\n@lru_cache(maxsize=None)\ndef _body(x):\n    return struct.pack("!d", x)\n\n\ndef _writeFloat(x, write):\n    write(FLOAT)\n    write(_body(x))\n\n\ndef setPrefixLimit(limit):\n')], expect_rule='encode/float-bits-independent-of-history'),
+    Mutant('integer-readers-table-without-LONGNEG', BANANA, '            elif typebyte == INT:\n                buffer = rest\n                num = b1282int(num)\n                gotItem(num)\n            elif typebyte == LONGINT:\n                buffer = rest\n                num = b1282int(num)\n                gotItem(num)\n            elif typebyte == LONGNEG:\n                buffer = rest\n                num = b1282int(num)\n                gotItem(-num)\n            elif typebyte == NEG:\n                buffer = rest\n                num = -b1282int(num)\n                gotItem(num)\n', '            elif typebyte in self._integerReaders:\n                buffer = rest\n                reader = self._integerReaders[typebyte]\n                reader(self, num, gotItem)\n', more=[(BANANA, '    def dataReceived(self, chunk):\n', '    def _readPositive(self, digits, deliver):\n        deliver(b1282int(digits))\n\n    def _readNegative(self, digits, deliver):\n        deliver(-b1282int(digits))\n\n    _integerReaders = {INT: _readPositive, LONGINT: _readPositive, NEG: _readNegative}\n\n    def dataReceived(self, chunk):\n')], expect_rule='tags-table/encoder-subset-of-decoder'),
+    Mutant('integer-readers-table-negative-entries-swapped', BANANA, '            elif typebyte == INT:\n                buffer = rest\n                num = b1282int(num)\n                gotItem(num)\n            elif typebyte == LONGINT:\n                buffer = rest\n                num = b1282int(num)\n                gotItem(num)\n            elif typebyte == LONGNEG:\n                buffer = rest\n                num = b1282int(num)\n                gotItem(-num)\n            elif typebyte == NEG:\n                buffer = rest\n                num = -b1282int(num)\n                gotItem(num)\n', '            elif typebyte in self._integerReaders:\n                buffer = rest\n                reader = self._integerReaders[typebyte]\n                reader(self, num, gotItem)\n', more=[(BANANA, '    def dataReceived(self, chunk):\n', '    def _readPositive(self, digits, deliver):\n        deliver(b1282int(digits))\n\n    def _readNegative(self, digits, deliver):\n        deliver(-b1282int(digits))\n\n    _integerReaders = {INT: _readPositive, LONGINT: _readPositive, NEG: _readPositive, LONGNEG: _readNegative}\n\n    def dataReceived(self, chunk):\n')], expect_rule='decode/step'),
 ]
 SILENT = [
+    Silent('integer-arms-dispatched-through-a-class-table', BANANA, '            elif typebyte == INT:\n                buffer = rest\n                num = b1282int(num)\n                gotItem(num)\n            elif typebyte == LONGINT:\n                buffer = rest\n                num = b1282int(num)\n                gotItem(num)\n            elif typebyte == LONGNEG:\n                buffer = rest\n                num = b1282int(num)\n                gotItem(-num)\n            elif typebyte == NEG:\n                buffer = rest\n                num = -b1282int(num)\n                gotItem(num)\n', '            elif typebyte in self._integerReaders:\n                buffer = rest\n                reader = self._integerReaders[typebyte]\n                reader(self, num, gotItem)\n', more=[(BANANA, '    def dataReceived(self, chunk):\n', '    def _readPositive(self, digits, deliver):\n        deliver(b1282int(digits))\n\n    def _readNegative(self, digits, deliver):\n        deliver(-b1282int(digits))\n\n    _integerReaders = {INT: _readPositive, LONGINT: _readPositive, NEG: _readNegative, LONGNEG: _readNegative}\n\n    def dataReceived(self, chunk):\n')]),
     Silent('float-body-packed-by-a-precompiled-struct', BANANA, '            write(FLOAT)\n            write(struct.pack("!d", obj))\n', '            write(FLOAT)\n            write(_double.pack(obj))\n', more=[(BANANA, 'def setPrefixLimit(limit):\n', '_double = struct.Struct("!d")\n\n\ndef setPrefixLimit(limit):\n')]),
     Silent('float-frame-cached-by-its-packed-bytes', BANANA, '            write(FLOAT)\n            write(struct.pack("!d", obj))\n', '            write(_floatFrame(struct.pack("!d", obj)))\n', more=[(BANANA, 'def setPrefixLimit(limit):\n', 'from functools import lru_cache\n\n\n@lru_cache(maxsize=64)\ndef _floatFrame(body):\n    return FLOAT + body\n\n\ndef setPrefixLimit(limit):\n')]),
     Silent('float-written-by-an-uncached-module-helper', BANANA, '            write(FLOAT)\n            write(struct.pack("!d", obj))\n', '            _writeFloat(obj, write)\n', more=[(BANANA, 'def setPrefixLimit(limit):\n', 'def _writeFloat(x, write):\n    write(FLOAT)\n    write(struct.pack("!d", x))\n\n\ndef setPrefixLimit(limit):\n')]),
